@@ -102,6 +102,9 @@ class DictProxy(dict):
         super().__setitem__(key, value)
 
     def _ref_path(self, key: str) -> str:
+        cfg_path = getattr(self.cfg, "_ref_path", None)
+        if cfg_path and isinstance(cfg_path, str):
+            return "%s.%s[%s]" % (cfg_path, self.dict_field._key, key)
         return "%s[%s]" % (self.dict_field._ref_path, key)
 
     def _validate(self, key: Any, value: Any) -> Tuple[Any, Any]:
